@@ -1,10 +1,15 @@
 package main
 
 import (
+	"sync"
+
 	"go.uber.org/zap"
 )
 
+// SelfLearnRoute is shared by all the listeners of a proxy, so the route
+// map is accessed from the message loop goroutine of every listener
 type SelfLearnRoute struct {
+	sync.Mutex
 	// map between destination ip/host and local server transport
 	route map[string]ServerTransport
 }
@@ -14,6 +19,9 @@ func NewSelfLearnRoute() *SelfLearnRoute {
 }
 
 func (sl *SelfLearnRoute) AddRoute(ip string, transport ServerTransport) {
+	sl.Lock()
+	defer sl.Unlock()
+
 	old, ok := sl.route[ip]
 	if ok && sl.isSameTransport(old, transport) {
 		return
@@ -29,7 +37,9 @@ func (sl *SelfLearnRoute) isSameTransport(transport1 ServerTransport, transport2
 }
 
 func (sl *SelfLearnRoute) GetRoute(ip string) (ServerTransport, bool) {
+	sl.Lock()
 	transport, ok := sl.route[ip]
+	sl.Unlock()
 	if ok {
 		zap.L().Info("Succeed to get route for ip", zap.String("ip", ip), zap.String("protocol", transport.GetProtocol()), zap.String("addr", transport.GetAddress()), zap.Int("port", transport.GetPort()))
 	}
